@@ -112,7 +112,18 @@ type lruOut struct {
 	evicted string // "key=id,key=id" in callback order
 }
 
+// ttl sentinels of the loader plan: absolute expiry instants that no duration reaches
+const (
+	TTLYear2500 = int64(1)<<62 + 1
+	TTLYear9999 = int64(1)<<62 + 2
+	TTLZeroTime = int64(1)<<62 + 3
+)
+
 type world struct {
+	curOp   string
+	delInCR int
+	panicAt map[int]bool
+	abandon bool
 	c      *sim.Case
 	e      *sim.Env
 	mode   string
@@ -213,6 +224,13 @@ func (w *world) onDelete(k string, id int) {
 	if ck, ok := w.created[id]; !ok || ck != k {
 		w.e.Violate(w.delProp(), "delete_wrong_args", "the delete callback got key %q with value #%d, which was created for key %q", k, id, ck)
 	}
+	if w.mode == "seqp" && (w.curOp == "clear" || w.curOp == "remove") {
+		w.delInCR++
+		if w.panicAt[w.delInCR] {
+			w.e.FaultFired("delete_callback_panicked")
+			panic(cbPanic{})
+		}
+	}
 }
 
 func (w *world) delProp() string {
@@ -237,6 +255,11 @@ func (w *world) Setup(e *sim.Env) {
 			w.ttlFor[fmt.Sprintf("%s#%d", f.Node, f.Ord)] = time.Duration(f.D)
 		case "sleep":
 			w.loaderSleep[fmt.Sprintf("%s#%d", f.Node, f.Ord)] = time.Duration(f.D)
+		case "panic":
+			if w.panicAt == nil {
+				w.panicAt = map[int]bool{}
+			}
+			w.panicAt[int(f.Ord)] = true
 		}
 	}
 	var err error
@@ -274,6 +297,14 @@ func (w *world) Setup(e *sim.Env) {
 				ttl = 1000 * time.Hour
 			}
 			exp := time.Now().Add(ttl)
+			switch int64(ttl) {
+			case TTLYear2500:
+				exp = time.Date(2500, 1, 1, 0, 0, 0, 0, time.UTC)
+			case TTLYear9999:
+				exp = time.Date(9999, 12, 31, 23, 59, 59, 0, time.UTC)
+			case TTLZeroTime:
+				exp = time.Time{} // the zero time: expired since ever
+			}
 			w.expiry[it.id] = exp
 			return glru.NewCacheItem(it, exp), nil
 		}, func(k string, v glru.ExpirableItem[*item]) { w.onDelete(k, v.Value.id) })
@@ -305,8 +336,64 @@ func (w *world) runTask(idx int, t sim.Task) {
 	w.nDone++
 }
 
+// cbPanic is what an injected panic of the delete callback carries.
+type cbPanic struct{}
+
+// doOpPanicky (mode "seqp", C11): the delete callback panics at planned
+// invocations inside Remove and Clear - the two calls that release the cache
+// lock by defer - and the caller recovers, as a caller whose release function
+// can fail would. The cache is not compared with the reference LRU here (an
+// interrupted Clear has no sequential meaning); what is judged is what C11
+// states: nothing but live entries stays reachable, and the capacity bound.
+func (w *world) doOpPanicky(name string, op sim.Op) {
+	e := w.e
+	w.cur[name] = &callRec{}
+	w.variants[name] = op.N
+	w.curOp = op.K
+	res := "done"
+	func() {
+		defer func() {
+			if v := recover(); v != nil {
+				if _, ok := v.(cbPanic); !ok {
+					panic(v)
+				}
+				res = "panicked"
+				e.Probe("call_ended_by_panicking_delete_callback")
+			}
+		}()
+		switch op.K {
+		case "get":
+			if _, err := w.cache.Get(op.S); err != nil && !errors.Is(err, errLoader) {
+				e.Violate(w.prop(), "unexpected_error", "GetOrCreate(%q) returned %v", op.S, err)
+			}
+		case "remove":
+			w.cache.Remove(op.S)
+		case "clear":
+			w.cache.Clear()
+		case "jump":
+			zsimrt.Sleep("task:jump", time.Duration(op.D))
+		}
+	}()
+	w.curOp = ""
+	e.Logf("%s %s -> %s", name, op.String(), res)
+	if _, _, held, _, _ := w.cache.State(); held {
+		// an implementation that does not release its lock when a callback panics is
+		// unusable afterwards; C11 says nothing about that
+		e.Void("the cache lock stayed held after a panicking delete callback: nothing to judge")
+		w.abandon = true
+		return
+	}
+	w.checkNodes("after " + op.String() + " (" + res + ")")
+}
+
 func (w *world) doOp(idx int, name string, op sim.Op) {
 	e := w.e
+	if w.mode == "seqp" {
+		if !w.abandon {
+			w.doOpPanicky(name, op)
+		}
+		return
+	}
 	r := &callRec{}
 	w.cur[name] = r
 	w.variants[name] = op.N
@@ -429,6 +516,9 @@ func (w *world) Quiet(e *sim.Env) bool {
 func (w *world) Finished(e *sim.Env) bool {
 	if w.nDone < w.tasks {
 		return false
+	}
+	if w.abandon {
+		return true
 	}
 	switch w.phase {
 	case 0:
